@@ -57,3 +57,9 @@ claim("C19", "relation checker over seeded families of near-identical values (==
       "str/hash/token is compared with per-route pristine interpreters, and every transformer handed out by the id-keyed cache is compared on probe points with one built by the oracle; "
       "a construct-transform-drop churn exceeds any plausible cache bound. Known findings K1-K3 are classified by mechanism (known_findings.json).",
       _TB + " pyproj decides losslessness of routes; PYTHONHASHSEED pinned.", "DESIGN.md 5/C19")
+
+claim("C02", "post-condition monitors on every GeoBox / GCPGeoBox view operation + single-box consistency monitor (inverse maps, extent, bounding box, labels, resolution), reference computed with plain numpy matrices; seeded operation chains",
+      "Each of 18 view operations (and scaled_down_geobox) is judged on every call against its contract written relative to the source box (probe pixels mapped through numpy 3x3 "
+      "matrices, expected shape from numpy indexing semantics, covering where documented), and every resulting box is checked for internal consistency; chains of 1-6 operations over 7 "
+      "affine families, 1xN/Nx1 shapes, translations to 1e7 and GCP boxes (affine and mildly non-affine control points; tolerance from measured residual and non-affinity).",
+      _TB + " zoom_to(int) pixel count is logged, not judged; regions given as geometries are C16's.", "DESIGN.md 5/C02")
